@@ -18,7 +18,7 @@ VARIABLES f, f0, hist
 vars == <<f, f0, hist>>
 
 Mk(r, s, c) == [roots |-> r, secs |-> s, ver |-> c.ver, dpad |-> c.dpad, ipad |-> c.ipad, idx |-> c.idx,
-                full |-> c.full, npad |-> c.npad]
+                full |-> c.full, npad |-> c.npad, hx |-> IF "hx" \in DOMAIN c THEN c.hx ELSE 0]
 
 Init == /\ \E r \in RootLists, k \in 0..MaxLen, c \in Conts : \E s \in [1..k -> SecIds] : f = Mk(r, s, c)
         /\ f0 = f
@@ -41,9 +41,11 @@ Extract(dst) ==
               [f EXCEPT !.ver = 1, !.dpad = 0, !.ipad = 0, !.idx = "none", !.full = FALSE])
     ELSE Step([op |-> "extract", dst |-> dst], "err", f)      \* already a CARv1: refused, untouched
 
+(* The new header is written canonically over the one on disk, whose length is HLen(f) -- with a
+   non-canonical header that is NOT the length of a re-encoding of the decoded header. *)
 Replace(r) ==
-  IF HeaderLen(r) = HeaderLen(f.roots)
-    THEN Step([op |-> "replace", roots |-> r], "ok", [f EXCEPT !.roots = r])
+  IF HeaderLen(r) = HLen(f)
+    THEN Step([op |-> "replace", roots |-> r], "ok", [f EXCEPT !.roots = r, !.hx = 0])
     ELSE Step([op |-> "replace", roots |-> r], "err", f)       \* refused, file untouched
 
 Next == \/ \E c \in {"mh", "sorted"} : Wrap(c)
@@ -52,7 +54,7 @@ Next == \/ \E c \in {"mh", "sorted"} : Wrap(c)
 Spec == Init /\ [][Next]_vars
 
 SecsNeverChange == f.secs = f0.secs
-RootsOnlyEqualLength == HeaderLen(f.roots) = HeaderLen(f0.roots)
+RootsOnlyEqualLength == HLen(f) = HLen(f0)
 PayloadLenStable == SectionsLen(f) = SectionsLen(f0)
 ExtractWrapIdentity ==
   \A i \in 1..(Len(hist) - 1) :
